@@ -139,6 +139,33 @@ func TestVerifC14Enc(t *testing.T) {
 		v.fill(rootB.Elem(), leaf, secB, false)
 		mA, errA := c14Marshal(rootA.Interface())
 		mB, errB := c14Marshal(rootB.Interface())
+		// rendering must not touch its INPUT: the marshalled object is used afterwards (the collector marshals the configuration for
+		// the ConfigWatcher extensions and then builds the service from the same structs), so every opaque leaf must still BE an
+		// opaque value holding the planted secret ("the explicit conversion still returns the secret for the code that needs it")
+		c14InputIntact := func(renderer string) {
+			fresh := reflect.New(rt)
+			v.fill(fresh.Elem(), leaf, secA, false)
+			if where, what := c14FirstDiff(rootA.Elem(), fresh.Elem(), "", 0); where != "" {
+				out.Linef("viol sig=C14/marshal/input-mutated/%s at=%s what=%s input=%s", renderer, where, what, strings.ReplaceAll(v.String(), " ", "_"))
+				v.fill(rootA.Elem(), leaf, secA, false) // repair for the next renderer
+			}
+		}
+		c14InputIntact("confmap.Marshal")
+		func() {
+			defer func() { _ = recover() }()
+			_ = fmt.Sprintf("%v %+v %#v %s %d", rootA.Interface(), rootA.Interface(), rootA.Interface(), rootA.Interface(), rootA.Interface())
+		}()
+		c14InputIntact("fmt")
+		func() {
+			defer func() { _ = recover() }()
+			_, _ = json.Marshal(rootA.Interface())
+		}()
+		c14InputIntact("json")
+		func() {
+			defer func() { _ = recover() }()
+			_, _ = yaml.Marshal(rootA.Interface())
+		}()
+		c14InputIntact("yaml")
 		var sa, sb strings.Builder
 		var strsA, strsB []string
 		if errA != nil {
@@ -206,6 +233,77 @@ func TestVerifC14Enc(t *testing.T) {
 		out.Linef("end")
 		out.Flush()
 	}
+}
+
+// c14FirstDiff: first position where two values of one type differ — path and what (dynamic type / text / length / nil-ness)
+func c14FirstDiff(a, b reflect.Value, path string, depth int) (string, string) {
+	if depth > 40 {
+		return "", ""
+	}
+	if a.IsValid() != b.IsValid() {
+		return path + "?", "validity"
+	}
+	if !a.IsValid() {
+		return "", ""
+	}
+	if a.Type() != b.Type() {
+		return path, fmt.Sprintf("dynamic-type:%s->%s", b.Type(), a.Type())
+	}
+	switch a.Kind() {
+	case reflect.String:
+		if a.String() != b.String() {
+			if a.Type() == reflect.TypeOf(configopaque.String("")) {
+				return path, "opaque-text:" + vHex(a.String())
+			}
+			return path, "text"
+		}
+	case reflect.Pointer, reflect.Interface:
+		if a.IsNil() != b.IsNil() {
+			return path, "nil-ness"
+		}
+		if !a.IsNil() {
+			return c14FirstDiff(a.Elem(), b.Elem(), path+"*", depth+1)
+		}
+	case reflect.Slice, reflect.Array:
+		if a.Kind() == reflect.Slice && a.IsNil() != b.IsNil() {
+			return path, "nil-ness"
+		}
+		if a.Len() != b.Len() {
+			return path, "length"
+		}
+		for i := 0; i < a.Len(); i++ {
+			if w, x := c14FirstDiff(a.Index(i), b.Index(i), fmt.Sprintf("%s[%d]", path, i), depth+1); w != "" {
+				return w, x
+			}
+		}
+	case reflect.Map:
+		if a.IsNil() != b.IsNil() {
+			return path, "nil-ness"
+		}
+		if a.Len() != b.Len() {
+			return path, "length"
+		}
+		for _, k := range a.MapKeys() {
+			bv := b.MapIndex(k)
+			if !bv.IsValid() {
+				return path + "{}", "key-set"
+			}
+			if w, x := c14FirstDiff(a.MapIndex(k), bv, path+"{}", depth+1); w != "" {
+				return w, x
+			}
+		}
+	case reflect.Struct:
+		for i := 0; i < a.NumField(); i++ {
+			if w, x := c14FirstDiff(a.Field(i), b.Field(i), path+"."+a.Type().Field(i).Name, depth+1); w != "" {
+				return w, x
+			}
+		}
+	default:
+		if a.CanInterface() && b.CanInterface() && !reflect.DeepEqual(a.Interface(), b.Interface()) {
+			return path, "value"
+		}
+	}
+	return "", ""
 }
 
 func c14Count(v *c14Val, k byte) int {
